@@ -93,6 +93,22 @@ def progD10 : Program :=
   oneFileProg true [.typedef (nm "A") (.ref (nm "B")), .typedef (nm "B") (.ref (nm "C")),
     .struct .struct (nm "C") [⟨some 1, nm "a", .optional, .ref (nm "A"), none⟩]]
 
+/-- D85: `typedef map<T1,T1> T0 … typedef map<T4,T4> T3  typedef i32 T4` — no cycle; every type is
+referred to twice by the one above it. -/
+def progD85 : Program :=
+  oneFileProg true [
+    .typedef (nm "T0") (.map 0 (.ref (nm "T1")) (.ref (nm "T1"))),
+    .typedef (nm "T1") (.map 0 (.ref (nm "T2")) (.ref (nm "T2"))),
+    .typedef (nm "T2") (.map 0 (.ref (nm "T3")) (.ref (nm "T3"))),
+    .typedef (nm "T3") (.map 0 (.ref (nm "T4")) (.ref (nm "T4"))),
+    .typedef (nm "T4") (.base 0 .i32)]
+
+/-- a typedef cycle through a container, entered twice: `typedef map<B, B> A  typedef list<A> B` -/
+def progTypedefCycle : Program :=
+  oneFileProg true [
+    .typedef (nm "A") (.map 0 (.ref (nm "B")) (.ref (nm "B"))),
+    .typedef (nm "B") (.list 0 (.ref (nm "A")))]
+
 /-- D17: `enum Color {RED = 1}  const string s = Color.RED` -/
 def progD17 : Program :=
   oneFileProg true [.enum (nm "Color") [(nm "RED", some 1)],
